@@ -95,9 +95,16 @@ Definition agree (c : case) : bool :=
   Bool.eqb (may_have_internal_overlap true (c_shape c) (c_strides c)) (c_impl c).
 (* property oracle on the implementation's own answer: "accepted => injective" (brute force,
    only evaluated when the layout is small enough to enumerate) *)
+(* Offsets are storage offsets: a layout whose largest offset does not fit the 64-bit address
+   space cannot be backed by any storage (every tensor constructor compares min_data_len =
+   max_off + 1 with the storage length -- C06), so the property is about layouts with
+   max_off + 1 < 2^64 -- exactly the hypothesis of the release-mode theorem. *)
+Definition addressable (dims : list dim) : bool := max_off dims + 1 <? two64.
 Definition prop_ok (c : case) : bool :=
+  let dims := combine (c_strides c) (c_shape c) in
   if c_impl c then true
-  else if c_small c then injective_b (combine (c_strides c) (c_shape c)) else true.
+  else if negb (addressable dims) then true
+  else if c_small c then injective_b dims else true.
 Definition show (c : case) :=
   (may_have_internal_overlap true (c_shape c) (c_strides c),
    may_have_internal_overlap false (c_shape c) (c_strides c),
